@@ -281,6 +281,9 @@ def falsify(ctx, deep=False):
             # the Kolmogorov limit asked for in the usual way: an infinite (or astronomically large) outer scale, for which
             # 1/L0^2 vanishes and the zero-frequency sample of the spectrum is infinite before it is removed
             inp.update({"L0": float("inf") if i == 1 else 1e120})
+            if i == 1:
+                inp["delta"] = rng.loguniform(0.02, 0.5)
+            inp["l0"] = inp["delta"] * rng.uniform(0.5, 3.0) if inp["delta"] < 10 else inp["l0"]     # inner scale resolved by the grid: the exp(-(f/fm)^2) factor matters
         try:
             res = property_checks(inp)
         except Exception as ex:
